@@ -257,7 +257,8 @@ def run_shard(shard, tier):
             return {'counters': {'evaluations': 1}, 'samples': [], 'outcomes': [],
                     'violations': [common.library_exception(ID, case.ident(), e)]}
     both = shard[0] != 'P'
-    res = e1.run_shard_generic(shard, tier, ID, check_case, both_labelings=both)
+    res = e1.run_shard_generic(shard, tier, ID, check_case, both_labelings=both,
+                                variants=('truthy-cells',))
     if shard[0] == 'S' and shard[1] * shard[2] <= 9:
         ctr = collections.Counter()
         for n, m, rows, tag in space.tables_of_shard(shard):
